@@ -37,6 +37,7 @@ def dispatch (cmd : String) (fields : List String) : String :=
   | "renfafixed" => cmdReNFAFixed fields
   | "reast" => cmdReAST fields
   | "reader" => cmdReader fields
+  | "readernext" => cmdReaderNext fields
   | _ => "UNKNOWN-COMMAND"
 
 partial def loop (cmd : String) (h : IO.FS.Stream) (out : IO.FS.Stream) : IO Unit := do
